@@ -3,24 +3,30 @@
    {group-less, A, B} x {x, y} (every interleaving of groups, re-opened sections, empty lists):
    the observable of MergeImpl equals MergeRef, and the output never exceeds Len(b) + Len(o).
    Values identify their origin (b1, b2, ... / o1, o2, ...).  Gen: every pair is exported
-   with the expected observable for replay into econf_mergeFiles.                          *)
+   with the expected observable for replay into econf_mergeFiles.
+   Hdr = TRUE: each side additionally carries a set of header-only sections (a `[A]` line with no
+   key below it, as a parsed file can have: vendor files whose section holds only commented-out
+   defaults).  The object keeps such a section in its section list, but the merge core looks at
+   entries only (HasGroup scans b, not the list), so the expectation does not depend on them:
+   an override's keys for a section the base only announces still arrive.                   *)
 EXTENDS Merge, TLC, Json
-CONSTANTS MaxLen, Export
-VARIABLES b, o, phase
-vars == <<b, o, phase>>
+CONSTANTS MaxLen, Export, Hdr
+VARIABLES b, o, phase, bh, oh
+vars == <<b, o, phase, bh, oh>>
 
 Gs == {NoG, <<65>>, <<66>>}
 Ks == {<<120>>, <<121>>}
 BVal(i) == <<98, 48 + i>>
 OVal(i) == <<111, 48 + i>>
 
-Init == b = <<>> /\ o = <<>> /\ phase = "b"
+HdrSets == IF Hdr THEN SUBSET {<<65>>, <<66>>} ELSE {{}}
+Init == b = <<>> /\ o = <<>> /\ phase = "b" /\ bh \in HdrSets /\ oh \in HdrSets
 GrowB == /\ phase = "b" /\ Len(b) < MaxLen
          /\ \E g \in Gs, k \in Ks : ~Defines(b, g, k) /\ b' = Append(b, Ent(g, k, BVal(Len(b) + 1)))
-         /\ UNCHANGED <<o, phase>>
+         /\ UNCHANGED <<o, phase, bh, oh>>
 GrowO == /\ Len(o) < MaxLen
          /\ \E g \in Gs, k \in Ks : ~Defines(o, g, k) /\ o' = Append(o, Ent(g, k, OVal(Len(o) + 1)))
-         /\ phase' = "o" /\ UNCHANGED b
+         /\ phase' = "o" /\ UNCHANGED <<b, bh, oh>>
 Next == GrowB \/ GrowO
 Spec == Init /\ [][Next]_vars
 
@@ -28,6 +34,6 @@ MergeIsRef   == ObsOf(MergeImpl(b, o)) = MergeRef(b, o)
 WithinBounds == Len(MergeImpl(b, o)) <= Len(b) + Len(o)
 Complete     == DOMAIN MapOf(MergeImpl(b, o)) = DOMAIN MapOf(b) \cup DOMAIN MapOf(o)
 
-Case == [b |-> b, o |-> o, exp |-> MergeRef(b, o)]
+Case == [b |-> b, o |-> o, bh |-> bh, oh |-> oh, exp |-> MergeRef(b, o)]
 ExportCase == Export => PrintT(ToJson(Case))
 =============================================================================
